@@ -7,8 +7,9 @@
 (* replays on the real regsync binary.  Two sources (constant GenMode):     *)
 (*   "space"  a random member of the exhaustively model-checked space the   *)
 (*            configuration selects (RegSyncMC!SpaceScns)                    *)
-(*   "rand"   a free random scenario over the full pool: 1-3 entries in six *)
-(*            layouts (image / repository / registry, disjoint targets),     *)
+(*   "rand"   a free random scenario over the full pool: 1-3 entries in 8   *)
+(*            layouts (image / repository / registry, disjoint targets, the  *)
+(*            target optionally inside the source registry),                 *)
 (*            allow / deny lists of 0-2 expressions over ordered subsets of  *)
 (*            five tags in three spellings, platform, media type list,       *)
 (*            backup shape, switches, parallel 0-4, populations of four      *)
@@ -39,7 +40,7 @@ Grid == <<"r1", "r2", "r10", "xr2">>
 \* one explicit record of independent draws (z makes the definition state dependent: TLC would
 \* otherwise evaluate it once when it starts)
 Draw(z) ==
-  [layout |-> RandomElement(1..6), par |-> RandomElement(0..4), page |-> W(<<0, 0, 0, 1, 2>>),
+  [layout |-> RandomElement(1..8), par |-> RandomElement(0..4), page |-> W(<<0, 0, 0, 1, 2>>),
    t1 |-> RandomElement(1..5), t2 |-> RandomElement(1..4),
    flt |-> TLCEval([i \in 1..18 |-> [tags |-> RandomElement(OrdSubs), style |-> W(Styles)]]),
    rflt |-> TLCEval([i \in 1..2 |-> [tags |-> RandomElement(ROrdSubs), style |-> W(<<"alt", "group", "class">>)]]),
@@ -68,6 +69,7 @@ Slot(d, i, e) == [Opt(e, d.plat[i], d.mts[i], d.bk[i], SwOf(d.sw[i])) EXCEPT
                     !.allow = IF e.type = "image" THEN <<>> ELSE Lst(d, i, 0, d.nal[i]),
                     !.deny = IF e.type = "image" THEN <<>> ELSE Lst(d, i, 2, d.nde[i])]
 RepoE(s, t) == [E0 EXCEPT !.srepo = s, !.trepo = t]
+Same(e) == [e EXCEPT !.treg = "src", !.trepo = "mirror/" \o e.trepo]
 ImgE(sr, st, tr, tt) == [E0 EXCEPT !.type = "image", !.srepo = sr, !.stag = st, !.trepo = tr, !.ttag = tt]
 RegE(d) == [E0 EXCEPT !.type = "registry", !.srepo = "", !.trepo = "",
                       !.rallow = SubSeq(<<d.rflt[1]>>, 1, d.nra), !.rdeny = SubSeq(<<d.rflt[2]>>, 1, d.nrd)]
@@ -79,7 +81,9 @@ Entries(d) ==
        [] d.layout = 3 -> <<Slot(d, 1, ImgE("r1", a, "r1", a)), Slot(d, 2, RepoE("r2", "r2"))>>
        [] d.layout = 4 -> <<Slot(d, 1, RegE(d))>>
        [] d.layout = 5 -> <<Slot(d, 1, ImgE("r1", a, "r1", a)), Slot(d, 2, ImgE("r1", b, "r1", "copy")), Slot(d, 3, RepoE("r2", "r2"))>>
-       [] OTHER -> <<Slot(d, 1, RegE(d)), Slot(d, 2, ImgE("r1", a, "solo", a))>>
+       [] d.layout = 6 -> <<Slot(d, 1, RegE(d)), Slot(d, 2, ImgE("r1", a, "solo", a))>>
+       [] d.layout = 7 -> <<Slot(d, 1, Same(RepoE("r1", "r1"))), Slot(d, 2, Same(ImgE("r2", a, "r2", a)))>>
+       [] OTHER -> <<Slot(d, 1, RepoE("r1", "r1")), Slot(d, 2, Same(RepoE("r2", "r2")))>>
 \* two entries must not share a backup name: only the constant name can collide (same repository)
 Fix(es, i) == IF es[i].backup = "const" /\ \E j \in 1..(i - 1) : es[j].backup = "const" /\ es[j].trepo = es[i].trepo
               THEN [es[i] EXCEPT !.backup = "tagtpl"] ELSE es[i]
@@ -98,6 +102,10 @@ TgtSet(d) ==
       ext == {<<"r1", "zz", d.xt[1]>>, <<"r1", "old", d.xt[2]>>, <<"r1", "bak-v1", d.xt[3]>>, <<"r1", "copy", d.xt[4]>>,
               <<"solo", "v1", d.xt[1]>>, <<"r2", "old", d.xt[3]>>}
   IN {x \in res \cup ext : x[3] # "" /\ (x[1] \in {"r1", "r2", "solo"} \/ d.layout \in {4, 6})}
+\* layouts 7, 8: the mirror repositories live in the source registry
+MirPop(d) == IF d.layout \in {7, 8}
+             THEN {<<"mirror/" \o x[1], x[2], x[3]>> : x \in {y \in TgtSet(d) : y[1] \in {"r1", "r2"}}}
+             ELSE {}
 PlanOf(d) ==
   LET mvs(i) == [j \in 1..d.nmv[i] |->
                    LET m == d.mv[2 * (i - 1) + j] IN
@@ -106,7 +114,7 @@ PlanOf(d) ==
   IN IF d.nruns = 2 THEN seg(1) \o seg(2)
      ELSE IF d.nruns = 3 THEN seg(1) \o seg(2) \o seg(3)
      ELSE seg(1) \o seg(2) \o seg(3) \o seg(4)
-Build(d) == Scn(Conf(d.par, Dedup(Entries(d))), SrcSet(d), TgtSet(d), PlanOf(d))
+Build(d) == Scn(Conf(d.par, Dedup(Entries(d))), SrcSet(d) \cup MirPop(d), TgtSet(d), PlanOf(d))
 
 GInit == Init /\ draws = <<>> /\ drawn = FALSE /\ scn = <<>> /\ hist = <<>>
 GDraw == /\ phase = "setup" /\ ~drawn
